@@ -124,6 +124,10 @@ func lastLines(s string, n int) string {
 	return strings.Join(ls, "\n")
 }
 
+// predicting: the known findings to which generated programs are attributed by prediction.
+var predicting = map[string]bool{"select-send-cases-share-value-register": true, "range-chan-declared-var-int-register": true,
+	"select-comm-decl-shares-select-scope": true, "break-in-select-clause-never-lands": true, "labelled-break-out-of-for-select-ignores-label": true}
+
 // hangLimit: how long a program that is predicted never to end is given.
 const hangLimit = 700 * time.Millisecond
 
@@ -147,7 +151,19 @@ func runC14(c *hx.Ctx) error {
 	}
 	n := c.N(480, 4000)
 	var progs []*program
+	// VERIF_C14_STRICT=1 (authoring time, fixes/FINDING-CLASSES.md point 3): the run consists of the
+	// streams that predict known defects, and a class whose predictions come true in less than 95 %
+	// of at least 20 predicted programs is a break
+	strict := os.Getenv("VERIF_C14_STRICT") == "1"
 	for i := 0; i < n; i++ {
+		if strict {
+			if i%4 == 0 {
+				progs = append(progs, genSeq(c.R))
+			} else {
+				progs = append(progs, genForms(c.R))
+			}
+			continue
+		}
 		switch i % 10 {
 		case 9:
 			if i < 1500 { // a matrix, not a space: a few hundred points cover it
@@ -444,6 +460,18 @@ func runC14(c *hx.Ctx) error {
 		}
 	}
 
+	if strict {
+		for _, k := range knownC14 {
+			pred, came := res.Histogram["class/"+k.id+"/predicted"], res.Histogram["class/"+k.id+"/fail-as-predicted"]
+			switch {
+			case !activeKnown[k.id] || !predicting[k.id]:
+			case pred < 20:
+				res.AddBreak(proto.Break{Kind: "correspondence", Name: "finding-class-precision-unmeasured: " + k.id, Case: "C14 strict", Impl: fmt.Sprintf("%d programs predicted", pred), Model: "at least 20"})
+			case came*100 < pred*95:
+				res.AddBreak(proto.Break{Kind: "correspondence", Name: "finding-class-too-broad: " + k.id, Case: "C14 strict", Impl: fmt.Sprintf("%d of %d predictions came true", came, pred), Model: "at least 95 %"})
+			}
+		}
+	}
 	if len(raceSample) > 0 {
 		note, races, err := raceStress(raceSample)
 		if err != nil {
